@@ -38,11 +38,16 @@ type Env struct {
 	Snap    vnode.Snapshot // databases of a node holding exactly the trunk
 	nonce   int64
 	CfgEdit func(string) string
+	Len     int // trunk length (TrunkLen unless built with NewEnvLen)
 }
 
 // NewEnv starts the producer, builds the trunk and snapshots it.
-func NewEnv(cfgEdit func(string) string) (*Env, error) {
-	e := &Env{CfgEdit: cfgEdit}
+func NewEnv(cfgEdit func(string) string) (*Env, error) { return NewEnvLen(cfgEdit, TrunkLen) }
+
+// NewEnvLen is NewEnv with a trunk of n blocks: with n = TrunkLen-1 the first level of every tree sits
+// exactly on the height from which the blockchain module reorganises (finalised height + 12).
+func NewEnvLen(cfgEdit func(string) string, n int) (*Env, error) {
+	e := &Env{CfgEdit: cfgEdit, Len: n}
 	e.P = vnode.New(vnode.Options{CfgEdit: cfgEdit})
 	e.Cfg = e.P.Cfg
 	if !e.P.WaitHeight(0, 10*time.Second) {
@@ -53,7 +58,7 @@ func NewEnv(cfgEdit func(string) string) (*Env, error) {
 		return nil, err
 	}
 	e.Trunk = []*types.Block{g.Block}
-	for i := 1; i <= TrunkLen; i++ {
+	for i := 1; i <= e.Len; i++ {
 		b, err := e.Make(e.Trunk[i-1], 1, Bits[0])
 		if err != nil {
 			return nil, fmt.Errorf("trunk block %d: %v", i, err)
@@ -63,7 +68,7 @@ func NewEnv(cfgEdit func(string) string) (*Env, error) {
 		}
 		e.Trunk = append(e.Trunk, b)
 	}
-	if h := e.P.Chain.GetBlockHeight(); h != TrunkLen {
+	if h := e.P.Chain.GetBlockHeight(); h != int64(e.Len) {
 		return nil, fmt.Errorf("trunk height %d", h)
 	}
 	e.Snap = e.P.Snapshot()
@@ -171,7 +176,7 @@ func (s Shape) Branch(i int) []int {
 func (e *Env) Build(s Shape) ([]*types.Block, error) {
 	blocks := make([]*types.Block, len(s.Parent))
 	for i, p := range s.Parent {
-		parent := e.Trunk[TrunkLen]
+		parent := e.Trunk[e.Len]
 		if p >= 0 {
 			parent = blocks[p]
 		}
